@@ -55,9 +55,11 @@ Max2(a, b) == IF a > b THEN a ELSE b
 Min2(a, b) == IF a < b THEN a ELSE b
 SeqToSet(s) == {s[i] : i \in 1..Len(s)}
 
-Integs == 1..Len(cfg.sr)
-IntegName(i) == "webhook/" \o ToString(i - 1)
-IntegOf(name) == CHOOSE i \in Integs : IntegName(i) = name
+\* integrations are identified by name ("webhook/0", "email/0": kind and index within the kind),
+\* which is stable across reloads that add or remove other integrations
+Integs == {cfg.integs[j].name : j \in 1..Len(cfg.integs)}
+SrOf(n) == (CHOOSE x \in SeqToSet(cfg.integs) : x.name = n).sr
+NamesOfIntegs(seq) == {seq[j].name : j \in 1..Len(seq)}
 
 -----------------------------------------------------------------------------
 (* Reference definitions                                                   *)
@@ -73,8 +75,9 @@ InhibitedAt(a, t) ==
   /\ \E s \in Alerts : Lbl[s].sev = "crit" /\ Lbl[s].g = Lbl[a].g /\ FiringAt(s, t)
 SuppressedAt(a, t) == MutedAt(a, t) \/ InhibitedAt(a, t)
 
-Failing(i, t) == \E w \in SeqToSet(cfg.windows) : w.integ = i - 1 /\ w.from <= t /\ t < w.to
-FailingDuring(i, t0, t1) == \E w \in SeqToSet(cfg.windows) : w.integ = i - 1 /\ w.from <= t1 /\ t0 < w.to
+\* receiver script: windows of kind rec / unrec / hang fail; kind slow only delays
+Failing(i, t) == \E w \in SeqToSet(cfg.windows) : w.integ = i /\ w.kind # "slow" /\ w.from <= t /\ t < w.to
+FailingDuring(i, t0, t1) == \E w \in SeqToSet(cfg.windows) : w.integ = i /\ w.kind # "slow" /\ w.from <= t1 /\ t0 < w.to
 
 \* the delivery slack of C01: a hung flush may hold the run loop until its
 \* deadline, one maximal retry back-off, scheduling slack
@@ -92,9 +95,9 @@ NamesOf(as)    == {as[i].l : i \in 1..Len(as)}
 Entry(as, a)   == as[CHOOSE i \in 1..Len(as) : as[i].l = a]
 
 -----------------------------------------------------------------------------
-ObsInit == /\ now = 0 /\ cfg = [gw |-> 0, gi |-> 1, ri |-> 1, sr |-> <<TRUE>>, inhibit |-> FALSE, windows |-> << >>]
-           /\ ver = << >> /\ sil = << >> /\ last = << >> /\ brk = << >> /\ fl = << >> /\ cancd = [seen |-> {}, dead |-> {}, deadgk |-> {}]
-           /\ elig = [p \in Alerts \X {1} |-> -1] /\ chk = {}
+ObsInit == /\ now = 0 /\ cfg = [gw |-> 0, gi |-> 1, ri |-> 1, integs |-> <<[name |-> "webhook/0", sr |-> TRUE]>>, inhibit |-> FALSE, windows |-> << >>]
+           /\ ver = << >> /\ sil = << >> /\ last = << >> /\ brk = << >> /\ fl = << >> /\ cancd = [seen |-> {}, dead |-> << >>, deadgk |-> {}, refl |-> {}]
+           /\ elig = [p \in Alerts \X {"webhook/0"} |-> -1] /\ chk = {}
 
 \* eligibility clocks (C01), recomputed at every step for the new instant
 Eligible(a, i, t, v, s) ==
@@ -105,7 +108,7 @@ Eligible(a, i, t, v, s) ==
   /\ ~Failing(i, t)
 EligNext(t, v, s) ==
   [p \in Alerts \X Integs |->
-     IF Eligible(p[1], p[2], t, v, s) THEN (IF elig[p] >= 0 THEN elig[p] ELSE t) ELSE -1]
+     IF Eligible(p[1], p[2], t, v, s) THEN (IF p \in DOMAIN elig /\ elig[p] >= 0 THEN elig[p] ELSE t) ELSE -1]
 
 \* C01: an alert continuously eligible for longer than the bound is listed as
 \* firing by the latest successful notification of its group to that integration
@@ -117,14 +120,17 @@ C01_Deadline ==
 
 (* --- environment events ------------------------------------------------ *)
 Cfg(c) ==
-  /\ cfg' = c /\ now' = 0 /\ ver' = << >> /\ sil' = << >> /\ last' = << >> /\ brk' = << >> /\ fl' = << >> /\ cancd' = [seen |-> {}, dead |-> {}, deadgk |-> {}]
-  /\ elig' = [p \in Alerts \X (1..Len(c.sr)) |-> -1] /\ chk' = {}
+  /\ cfg' = c /\ now' = 0 /\ ver' = << >> /\ sil' = << >> /\ last' = << >> /\ brk' = << >> /\ fl' = << >> /\ cancd' = [seen |-> {}, dead |-> << >>, deadgk |-> {}, refl |-> {}]
+  /\ elig' = [p \in Alerts \X NamesOfIntegs(c.integs) |-> -1] /\ chk' = {}
 
 Ingest(a, v) ==
   /\ ver' = Put(ver, a, v)
   /\ elig' = EligNext(now, ver', sil)
+  \* refl: alerts updated while a flush of their group is being delivered (C05: they stay in the group)
+  /\ cancd' = IF \E x \in DOMAIN fl : fl[x].gk = GroupKeyOf(a) /\ a \in NamesOf(fl[x].alerts)
+                 THEN [cancd EXCEPT !.refl = @ \cup {a}] ELSE cancd
   /\ chk' = {}
-  /\ UNCHANGED <<now, cfg, sil, last, brk, fl, cancd>>
+  /\ UNCHANGED <<now, cfg, sil, last, brk, fl>>
 
 SilSet(ms, start, end) ==
   /\ sil' = Append(sil, [ms |-> ms, start |-> start, end |-> end])
@@ -158,7 +164,7 @@ Advance(t) ==
 
 (* --- flush ------------------------------------------------------------- *)
 NoAtt == [n |-> 0, lastT |-> 0, lastOutcome |-> "none", done |-> FALSE, logged |-> FALSE, sent |-> << >>]
-Dead(ag) == ag \in cancd.dead
+Dead(ag) == ag \in DOMAIN cancd.dead
 LiveOf(gk) == {x \in DOMAIN fl : fl[x].gk = gk}
 
 FlushBegin(ag, gk, as) ==
@@ -167,6 +173,7 @@ FlushBegin(ag, gk, as) ==
         \* C06: one group per notification, all of its known firing alerts, latest version (C14)
         (IF \E a \in names : a \notin Alerts \/ GroupKeyOf(a) # gk THEN {"C06_foreign_alert"} ELSE {})
         \cup (IF \E a \in Alerts : GroupKeyOf(a) = gk /\ FiringAt(a, now) /\ a \notin names THEN {"C06_alert_missing_from_group"} ELSE {})
+        \cup (IF \E a \in cancd.refl : GroupKeyOf(a) = gk /\ FiringAt(a, now) /\ a \notin names THEN {"C05_alert_refired_during_delivery_lost"} ELSE {})
         \cup (IF \E a \in names \cap DOMAIN ver : Entry(as, a).upd # ver[a].upd THEN {"C14_stale_version_in_group"} ELSE {})
         \* C05: status is true at this instant
         \cup (IF \E a \in names \cap DOMAIN ver : Entry(as, a).upd = ver[a].upd /\ Entry(as, a).status = "resolved" /\ ver[a].end > now
@@ -180,7 +187,7 @@ FlushBegin(ag, gk, as) ==
                             muted |-> {a \in names \cap Alerts : MutedAt(a, now)},
                             inhibited |-> {a \in names \cap Alerts : InhibitedAt(a, now)},
                             prevF |-> [i \in Integs |-> IF <<gk, i>> \in DOMAIN last THEN last[<<gk, i>>].firing ELSE {}]])
-     /\ cancd' = [cancd EXCEPT !.seen = @ \cup {ag}]
+     /\ cancd' = [cancd EXCEPT !.seen = @ \cup {ag}, !.refl = {a \in @ : GroupKeyOf(a) # gk}]
      /\ brk' = [k \in DOMAIN brk |->
                   brk[k] \/ (k[1] = gk /\ ~\E a \in FiringOf(as) : ~SuppressedAt(a, now))]
      /\ chk' = bad
@@ -189,19 +196,20 @@ FlushBegin(ag, gk, as) ==
 \* what an integration must be handed in this flush: the whole group minus
 \* suppressed alerts (minus resolved ones without send_resolved)
 Expected(f, i) ==
-  {a \in NamesOf(f.alerts) : a \notin f.muted \cup f.inhibited /\ (cfg.sr[i] \/ Entry(f.alerts, a).status = "firing")}
+  {a \in NamesOf(f.alerts) : a \notin f.muted \cup f.inhibited /\ (SrOf(i) \/ Entry(f.alerts, a).status = "firing")}
 
 Justified(k, i, F, R, t) ==
   IF k \notin DOMAIN last THEN F # {}
   ELSE LET p == last[k]
        IN /\ (F = {} => p.firing # {})
           /\ \/ ~(F \subseteq p.firing)
-             \/ (cfg.sr[i] /\ ~(R \subseteq p.resolved))
+             \/ (SrOf(i) /\ ~(R \subseteq p.resolved))
              \/ t - p.t > cfg.ri
              \/ brk[k]
 
-Attempt(ag, gk, name, as, outcome, deadline) ==
-  LET i == IntegOf(name)
+\* start = instant at which the delivery attempt began (it ends, and is recorded, at `now`)
+Attempt(ag, gk, name, as, outcome, deadline, start) ==
+  LET i == name
       k == <<gk, i>>
       inFlush == ag \in DOMAIN fl
       f == fl[ag]
@@ -214,7 +222,7 @@ Attempt(ag, gk, name, as, outcome, deadline) ==
         \* payload: C02, C03, C05, C06
         (IF NamesOf(as) \cap f.muted # {} THEN {"C02_silenced_alert_notified"} ELSE {})
         \cup (IF NamesOf(as) \cap f.inhibited # {} THEN {"C03_inhibited_alert_notified"} ELSE {})
-        \cup (IF ~cfg.sr[i] /\ R # {} THEN {"C05_resolved_sent_without_send_resolved"} ELSE {})
+        \cup (IF ~SrOf(i) /\ R # {} THEN {"C05_resolved_sent_without_send_resolved"} ELSE {})
         \cup (IF gk # f.gk \/ \E a \in NamesOf(as) : a \notin NamesOf(f.alerts) \/ Entry(as, a).status # Entry(f.alerts, a).status
                 THEN {"C06_payload_not_from_flush"} ELSE {})
         \cup (IF \E a \in Expected(f, i) : a \notin NamesOf(as) THEN {"C06_payload_is_a_delta"} ELSE {})
@@ -222,12 +230,18 @@ Attempt(ag, gk, name, as, outcome, deadline) ==
         \* C20: retry policy
         \cup (IF at.lastOutcome = "unrec" THEN {"C20_retry_after_unrecoverable"} ELSE {})
         \cup (IF at.done THEN {"C20_attempt_after_success"} ELSE {})
-        \cup (IF at.lastOutcome = "rec" /\ now - at.lastT > GapBound(at.n) THEN {"C20_retry_too_late"} ELSE {})
-        \cup (IF now > deadline THEN {"C20_attempt_after_deadline"} ELSE {})
+        \cup (IF at.lastOutcome = "rec" /\ start - at.lastT > GapBound(at.n) THEN {"C20_retry_too_late"} ELSE {})
+        \cup (IF start > deadline THEN {"C20_attempt_after_deadline"} ELSE {})
         \cup (IF deadline # f.t + Timeout THEN {"DRIFT_flush_deadline_differs_from_max_gi_10s"} ELSE {})
         \* C04: a delivered notification is justified
         \cup (IF outcome = "ok" /\ ~Justified(k, i, F, R, now) THEN {"C04_unjustified_notification"} ELSE {})
-  IN IF Dead(ag) THEN /\ chk' = {} /\ UNCHANGED <<now, cfg, ver, sil, last, brk, fl, cancd, elig>>
+  IN IF Dead(ag)
+       THEN \* a stopped dispatcher's groups must not deliver anything after the stop
+            /\ chk' = IF outcome = "ok" /\ now > cancd.dead[ag] THEN {"C04_notification_from_stopped_dispatcher"} ELSE {}
+            /\ UNCHANGED <<now, cfg, ver, sil, last, brk, fl, cancd, elig>>
+     ELSE IF i \notin Integs
+       THEN /\ chk' = {"C06_notification_to_unconfigured_integration"}
+            /\ UNCHANGED <<now, cfg, ver, sil, last, brk, fl, cancd, elig>>
      ELSE
      /\ IF inFlush
           THEN fl' = [fl EXCEPT ![ag].att[i] = [n |-> at.n + 1, lastT |-> now, lastOutcome |-> outcome,
@@ -243,17 +257,18 @@ Attempt(ag, gk, name, as, outcome, deadline) ==
 \* notification-log write: only after the integration reported success (or,
 \* without send_resolved, when nothing firing was left to send)
 NflogLog(gk, name, firing, resolved) ==
-  LET i == IntegOf(name)
+  LET i == name
       live == LiveOf(gk)
       ag == CHOOSE x \in live : TRUE
       f == fl[ag]
       at == f.att[i]
-      skip == ~cfg.sr[i] /\ firing = {}
-      bad == IF live = {} THEN (IF gk \in cancd.deadgk THEN {} ELSE {"C20_log_outside_flush"})
+      skip == ~SrOf(i) /\ firing = {}
+      bad == IF i \notin Integs THEN {"C06_notification_to_unconfigured_integration"}
+             ELSE IF live = {} THEN (IF gk \in cancd.deadgk THEN {} ELSE {"C20_log_outside_flush"})
              ELSE (IF ~at.done /\ ~skip THEN {"C20_recorded_without_success"} ELSE {})
                   \cup (IF at.logged THEN {"C20_recorded_twice"} ELSE {})
                   \cup (IF \E a \in firing \cup resolved : a \notin NamesOf(f.alerts) \/ a \in f.muted \cup f.inhibited THEN {"C20_log_lists_unsent_alert"} ELSE {})
-  IN /\ IF live # {} THEN fl' = [fl EXCEPT ![ag].att[i].logged = TRUE] ELSE fl' = fl
+  IN /\ IF live # {} /\ i \in Integs THEN fl' = [fl EXCEPT ![ag].att[i].logged = TRUE] ELSE fl' = fl
      /\ chk' = bad
      /\ UNCHANGED <<now, cfg, ver, sil, last, brk, cancd, elig>>
 
@@ -271,7 +286,8 @@ FlushDone(ag) ==
       accepting(i) == ~FailingDuring(i, f.t, now)
       exp(i) == Expected(f, i)
       newFiring(i) == {a \in exp(i) : Entry(f.alerts, a).status = "firing"} \ f.prevF[i]
-      newResolved(i) == IF cfg.sr[i] THEN {a \in exp(i) : Entry(f.alerts, a).status = "resolved"} \cap f.prevF[i] ELSE {}
+      entryExpired(i) == <<f.gk, i>> \in DOMAIN last /\ f.t - last[<<f.gk, i>>].t >= 2 * cfg.ri
+      newResolved(i) == IF SrOf(i) THEN {a \in exp(i) : Entry(f.alerts, a).status = "resolved"} \cap f.prevF[i] ELSE {}
       bad ==
         IF ag \notin DOMAIN fl THEN {"C06_done_outside_flush"}
         ELSE
@@ -284,9 +300,14 @@ FlushDone(ag) ==
                     ~(f.att[i].done /\ newFiring(i) \subseteq FiringOf(f.att[i].sent))
                 THEN {"C01_firing_alert_not_notified_by_flush"} ELSE {})
         \* C05: a resolved alert the receiver was told is firing is reported resolved by this flush
-        \cup (IF \E i \in Integs : accepting(i) /\ newResolved(i) # {} /\
+        \* (F8: the notification-log entry expires 2 x repeat_interval after the last
+        \* notification; a resolution first seen later than that is forgotten - listed finding)
+        \cup (IF \E i \in Integs : accepting(i) /\ newResolved(i) # {} /\ ~entryExpired(i) /\
                     ~(f.att[i].done /\ newResolved(i) \subseteq ResolvedOf(f.att[i].sent))
                 THEN {"C05_resolution_not_notified_by_flush"} ELSE {})
+        \cup (IF \E i \in Integs : accepting(i) /\ newResolved(i) # {} /\ entryExpired(i) /\
+                    ~(f.att[i].done /\ newResolved(i) \subseteq ResolvedOf(f.att[i].sent))
+                THEN {"C05_F8_resolution_forgotten_after_log_entry_expired"} ELSE {})
   IN IF Dead(ag) THEN /\ chk' = {} /\ UNCHANGED <<now, cfg, ver, sil, last, brk, fl, cancd, elig>>
      ELSE /\ fl' = IF ag \in DOMAIN fl THEN Drop(fl, {ag}) ELSE fl
           /\ chk' = bad
@@ -296,11 +317,26 @@ FlushDone(ag) ==
 \* progress is cancelled and a dying group may still run one more flush with a dead
 \* context; none of that creates obligations
 Cancelling ==
-  /\ cancd' = [seen |-> cancd.seen, dead |-> cancd.dead \cup cancd.seen \cup DOMAIN fl,
-               deadgk |-> cancd.deadgk \cup {fl[x].gk : x \in DOMAIN fl}]
+  /\ cancd' = [seen |-> cancd.seen,
+               dead |-> [x \in DOMAIN cancd.dead \cup cancd.seen \cup DOMAIN fl |->
+                           IF x \in DOMAIN cancd.dead THEN cancd.dead[x] ELSE now],
+               deadgk |-> cancd.deadgk \cup {fl[x].gk : x \in DOMAIN fl}, refl |-> cancd.refl]
   /\ fl' = << >>
   /\ chk' = {}
   /\ UNCHANGED <<now, cfg, ver, sil, last, brk, elig>>
+
+\* config reload: the old dispatcher is stopped (see Cancelling) and the new one is built from
+\* the new configuration, which may change the receiver's integrations
+Reloading(integs) ==
+  /\ cancd' = [seen |-> cancd.seen,
+               dead |-> [x \in DOMAIN cancd.dead \cup cancd.seen \cup DOMAIN fl |->
+                           IF x \in DOMAIN cancd.dead THEN cancd.dead[x] ELSE now],
+               deadgk |-> cancd.deadgk \cup {fl[x].gk : x \in DOMAIN fl}, refl |-> cancd.refl]
+  /\ fl' = << >>
+  /\ cfg' = [cfg EXCEPT !.integs = integs]
+  /\ elig' = [p \in Alerts \X NamesOfIntegs(integs) |-> IF p \in DOMAIN elig THEN elig[p] ELSE -1]
+  /\ chk' = {}
+  /\ UNCHANGED <<now, ver, sil, last, brk>>
 
 Other == /\ chk' = {} /\ UNCHANGED <<now, cfg, ver, sil, last, brk, fl, cancd, elig>>
 
